@@ -238,6 +238,9 @@ def search(model, rng, prog, events) -> Tuple[Optional[Dict[str, Any]], Dict[str
     faulty = [i for i, s in enumerate(singles) if s[0] == "fault"]
     if any(s[0] == "stuck" for s in singles):
         st["has-stuck-event"] += 1
+        for s_ in singles:
+            if s_[0] == "stuck":
+                st["stuck-kind:" + str(s_[1])[:60]] += 1
     for ctx in contexts_for(rng, len(events), ok, faulty):
         st["contexts"] += 1
         d = check_context(model, prog, ctx, events, singles)
@@ -337,6 +340,20 @@ def one_case(model, rng, be, uni, md, src, feat, ops, oc, stats, distinct, thoro
     events = gen_events(rng, uni, uses)
     d, st = search(model, rng, c.prog, events)
     stats.update(st)
+    # an event on which the job READS A LOCAL THAT NO STATEMENT OF THIS EVENT HAS SET (declared without a value, assigned only on a
+    # path this event does not take): in C++ that storage holds what an earlier event left there, so the rows are not a function
+    # of the event.  The executable semantics stops there (KUninit), which is reported with the event as the failing input.
+    for k_ev, ev_ in enumerate(events):
+        j1 = run(model, c.prog, [ev_])
+        if j1[0] == "stuck" and str(j1[2][0]).startswith("uninit"):
+            oc.violations.append(core.Violation(
+                key="c05:reads-unset-variable",
+                what=(f"{be}: on an event of its own the job reads {j1[2][1]!r}, a variable no statement of that event has set (it is assigned only inside a "
+                      f"loop that does not run there): the rows depend on what earlier events left in that storage; query {src[:200]}"),
+                replay={"kind": "query", "backend": be, "query": src, "features": sorted(feat), "events": [ev_], "position": 0,
+                        "stuck": list(j1[2]), "emitted": c.qlines}))
+            stats["violating-input:c05:reads-unset-variable"] += 1
+            return
     if d is None and not accepted:
         d, evs2, st2 = refined_search(model, rng, uni, c.prog, uses, 6 if thorough else 3)
         stats.update(st2)
@@ -472,6 +489,10 @@ def replay(path: str, build: core.BuildStatus) -> int:
     singles = [outcome_single(run(model, c.prog, [e])) for e in evs]
     d = check_context(model, c.prog, list(range(len(evs))), evs, singles)
     model.close()
+    if alone[0] == "stuck" and str(alone[1][0]).startswith("uninit"):
+        print(f"event #{pos} alone: the job reads {alone[1][1]!r}, which no statement of this event has set - its rows depend on earlier events")
+        print(f"VIOLATION property={PID} replay={path}")
+        return 1
     if d is not None:
         print(f"rows for event #{d['position']} depend on the preceding events: in job {short(d['in_context'])} vs alone {short(d['alone'])}")
         print(f"VIOLATION property={PID} replay={path}")
